@@ -25,6 +25,9 @@ TOutcome ==
      ELSE IF Recovers(sc)
      THEN /\ Cur.handle_calls = 1 /\ Cur.seen = <<sc.panic.value>>
           /\ ~Cur.ok /\ Cur.code = 15 /\ Cur.msg = "recovered" /\ Cur.got = GotBefore(sc)
+          \* "the client receives the error that function returned": with its metadata, and next to the trailers the
+          \* handler had set before it panicked
+          /\ Cur.recmeta = "m" /\ (sc.kind \in {"server", "bidi"} => Cur.rectrl = "t")
      ELSE ~Cur.ok /\ Cur.handle_calls = 0
 Normal == TReset \/ ((TApply \/ TObs \/ TOutcome) /\ Consume /\ UNCHANGED failed)
 TraceNext == \/ (~failed /\ Normal)
